@@ -36,10 +36,15 @@ type c18Scenario struct {
 	// Racer adds a task that closes the first connection concurrently with
 	// the closer task.
 	Racer bool
+	// CloseErr makes the Close of the underlying connections report an error
+	// (a TLS connection that cannot send its close_notify to a peer that has
+	// gone away does): the connection is closed all the same, and its slot
+	// must be released.
+	CloseErr bool
 }
 
 func (sc c18Scenario) String() string {
-	return fmt.Sprintf("stop=%d resume=%d accepts=%v closes=%d shutdown=%d innererr=%v racer=%v", sc.Stop, sc.Resume, sc.Accepts, sc.Closes, sc.Shutdown, sc.InnerErr, sc.Racer)
+	return fmt.Sprintf("stop=%d resume=%d accepts=%v closes=%d shutdown=%d innererr=%v racer=%v closeerr=%v", sc.Stop, sc.Resume, sc.Accepts, sc.Closes, sc.Shutdown, sc.InnerErr, sc.Racer, sc.CloseErr)
 }
 
 type c18Conn struct {
@@ -62,6 +67,9 @@ func (c *c18Conn) Close() error {
 	c.env.open--
 	if c.env.open <= int(c.env.sc.Resume) {
 		c.env.blocked = false
+	}
+	if c.env.sc.CloseErr {
+		return errors.New("tls: failed to send closeNotify alert (but connection was closed anyway)")
 	}
 
 	return nil
@@ -178,7 +186,7 @@ func c18Setup(sc c18Scenario, s *xsched.Sched) (env *c18Env) {
 				if cerr == nil && k == 0 {
 					env.firstOK++
 				}
-				if cerr != nil && !(sc.Racer && k == 0 && errors.Is(cerr, net.ErrClosed)) {
+				if cerr != nil && !(sc.Racer && k == 0 && errors.Is(cerr, net.ErrClosed)) && !(sc.CloseErr && !errors.Is(cerr, net.ErrClosed)) {
 					env.viol("connlimiter/first-close-failed", "first Close of connection %d returned %v", k, cerr)
 				}
 				if k == 0 {
@@ -326,6 +334,7 @@ func c18Scenarios(thorough bool) (out []c18Scenario) {
 				c18Scenario{Stop: stop, Resume: resume, Accepts: [][]int{{0, 0}, {1, 1}}, Closes: 1, Shutdown: 1},
 				c18Scenario{Stop: stop, Resume: resume, Accepts: [][]int{{0, 0}, {1}}, Closes: 2, Shutdown: -1, InnerErr: true},
 				c18Scenario{Stop: stop, Resume: resume, Accepts: [][]int{{0, 0}, {1}}, Closes: 1, Shutdown: -1, Racer: true},
+				c18Scenario{Stop: stop, Resume: resume, Accepts: [][]int{{0, 0}, {1}}, Closes: 2, Shutdown: -1, CloseErr: true},
 			)
 			if thorough {
 				out = append(out,
